@@ -118,6 +118,14 @@ fn sites(f: &Fault, tier: Tier) -> Vec<(&'static str, Vec<X>, X)> {
             bin(Op::Add, id("ob"), int(1)),
         ),
         (
+            "meta-add-rhs-has-reversed-op",
+            vec![
+                assign("ob", meta_map(vec![(MK::Meta("+".into(), None), func(&["rhs"], vec![print(s("in @+")), fe.clone()]))])),
+                assign("rb", meta_map(vec![(MK::Meta("r+".into(), None), func(&["lhs"], vec![print(s("in @r+")), s("from r+")]))])),
+            ],
+            bin(Op::Add, id("ob"), id("rb")),
+        ),
+        (
             "meta-ne-derived",
             vec![assign("oe_", meta_map(vec![(MK::Meta("==".into(), None), func(&["rhs"], vec![print(s("in @==")), fs.clone(), boolean(true)]))]))],
             cmp(id("oe_"), CmpOp::Ne, int(1)),
